@@ -118,12 +118,17 @@ func SNPFamilyValidateFunc(familyID string, opts *Options) func(*spb.Attestation
 			serializedEndorsement = blob
 
 		}
-		opts.SNP.Measurement = measurement
+		// The options are shared by every call of this function, so the report's measurement goes
+		// into a per-call copy.
+		callSNP := *opts.SNP
+		callSNP.Measurement = measurement
+		callOpts := *opts
+		callOpts.SNP = &callSNP
 		// Prefer the endorsement provided by the caller.
 		if opts.Endorsement != nil {
-			return EndorsementProto(opts.Endorsement, opts)
+			return EndorsementProto(opts.Endorsement, &callOpts)
 		}
-		return Endorsement(serializedEndorsement, opts)
+		return Endorsement(serializedEndorsement, &callOpts)
 	}
 }
 
